@@ -7,7 +7,7 @@ def _plain(v):
     if isinstance(v, np.ndarray):
         return v.copy()
     if isinstance(v, np.generic):
-        return v.item()
+        return v          # immutable; the fresh object must carry the same value *and type*
     if isinstance(v, dict):
         return {k: _plain(x) for k, x in v.items()}
     if isinstance(v, (list, tuple)):
